@@ -775,13 +775,88 @@ class MayRaise:
             else:
                 out |= self.expr_escapes(e.elt, ctx)
             return out
+        if isinstance(e, ast.BinOp):
+            esc = self.none_operand_check(e, ctx)
+            if esc:
+                out.add(esc)
         for ch in ast.iter_child_nodes(e):
-            if isinstance(ch, ast.expr):
+            if isinstance(ch, ast.FormattedValue):
+                out |= self.expr_escapes(ch.value, ctx)
+                out |= self.stringify_escapes(ch.value, "repr" if ch.conversion == ord("r") else "str", ctx, ch)
+            elif isinstance(ch, ast.expr):
                 out |= self.expr_escapes(ch, ctx)
             elif isinstance(ch, ast.keyword):
                 out |= self.expr_escapes(ch.value, ctx)
-            elif isinstance(ch, ast.FormattedValue):
-                out |= self.expr_escapes(ch.value, ctx)
+        return out
+
+    # -- arithmetic on a possibly-None operand
+    def none_operand_check(self, e: ast.BinOp, ctx) -> Optional[Esc]:
+        fi: FuncInfo = ctx["fi"]
+        if not isinstance(e.op, (ast.Add, ast.Sub, ast.Mult, ast.FloorDiv, ast.Div, ast.Mod, ast.LShift, ast.RShift, ast.BitAnd, ast.BitOr, ast.BitXor, ast.Pow)):
+            return None
+        for side in (e.left, e.right):
+            if not isinstance(side, (ast.Name, ast.Attribute)):
+                continue
+            t = self.r.type_of(side, fi)
+            if t[0] != "opt" or self.r.strip_opt(t) not in (prim("int"), prim("str"), prim("bytes"), prim("bool")):
+                continue
+            txt = norm(side)
+            facts = self.facts(e, ctx) or self.facts(side, ctx)
+            ok = ("NN", txt) in facts or ("T", txt) in facts
+            esc = self.site(ctx, e, "operand-optional", "TypeError", ok, f"`{txt}` may be None here (no dominating test) and takes part in arithmetic")
+            if esc:
+                return esc
+        return None
+
+    # -- str() / repr() / format() of package objects runs their own __str__ / __repr__
+    def stringify_escapes(self, value: ast.expr, mode: str, ctx, site: ast.AST) -> Set[Esc]:
+        fi: FuncInfo = ctx["fi"]
+        out: Set[Esc] = set()
+        classes: List[str] = []
+        if isinstance(value, ast.Name) and value.id in (ctx.get("handler_vars") or {}):
+            classes = sorted({x.exc for x in ctx["handler_vars"][value.id] if x.exc in self.m.classes})
+            for cq in classes:
+                out |= self._stringify_class(cq, mode, ctx, site, set(), exact=True)
+            return out
+        try:
+            t = self.r.type_of(value, fi)
+        except Exception:
+            return out
+        return self._stringify_type(t, mode, ctx, site, set())
+
+    def _stringify_type(self, t, mode: str, ctx, site, seen: Set[str]) -> Set[Esc]:
+        out: Set[Esc] = set()
+        t = self.r.strip_opt(t)
+        if t[0] == "list":
+            return self._stringify_type(t[1], "repr", ctx, site, seen)
+        if t[0] == "tuple":
+            for x in t[1]:
+                out |= self._stringify_type(x, "repr", ctx, site, seen)
+            return out
+        if t[0] == "dict" and len(t) > 2:
+            return self._stringify_type(t[1], "repr", ctx, site, seen) | self._stringify_type(t[2], "repr", ctx, site, seen)
+        if t[0] == "inst" and t[1] in self.m.classes:
+            return self._stringify_class(t[1], mode, ctx, site, seen, exact=False)
+        return out
+
+    def _stringify_class(self, cq: str, mode: str, ctx, site, seen: Set[str], exact: bool) -> Set[Esc]:
+        out: Set[Esc] = set()
+        for k in ([cq] if exact else self.m.subclasses(cq)):
+            if (k, mode) in seen:
+                continue
+            seen.add((k, mode))
+            c = self.m.classes[k]
+            mt = self.m.find_method(k, "__str__") if mode == "str" else None
+            if mt is None:
+                mt = self.m.find_method(k, "__repr__")
+            if mt is not None and not isinstance(mt.node, ast.Lambda):
+                out |= self.call_summary(mt, k, ctx, site, recv=None)
+                continue
+            if c.is_dataclass and not c.is_enum:
+                # the generated __repr__ shows every field with repr()
+                for f in self.m.dataclass_fields(k):
+                    if f.annotation is not None:
+                        out |= self._stringify_type(self.r.anno(self.m.classes[f.owner].module, f.annotation), "repr", ctx, site, seen)
         return out
 
     # -- attribute on a possibly-None receiver
